@@ -44,4 +44,16 @@ theorem CSMatrix_NNZ_refines (m : CSM α) :
   simp [CSMatrix_NNZ, CSMatrix_NNZ.body, Stm.run, Stm.seq, Stm.rangeOver, Stm.ret,
     CSMatrix_NNZ.loop1_xs, pure, Except.pure, Except.map, h1, h2, CSM.nnz]
 
+omit [Scalar α] in
+theorem CSMatrix_Dim_sq (g : GCSMatrix α) (h : g.MajorDim = g.MinorDim) :
+    ∃ st, Gen.CSMatrix_Dim g = .ok (st, (g.MajorDim, none)) := by
+  simp [Gen.CSMatrix_Dim, CSMatrix_Dim.body, Stm.run, Stm.seq, Stm.ite, Stm.ret, Stm.skip, pure, Except.pure, h]
+
+
+omit [Scalar α] in
+theorem CSMatrix_Dim_nsq (g : GCSMatrix α) (h : g.MajorDim ≠ g.MinorDim) :
+    ∃ st, Gen.CSMatrix_Dim g = .ok (st, (0, some ⟨"ErrDimensionMismatch"⟩)) := by
+  simp [Gen.CSMatrix_Dim, CSMatrix_Dim.body, Stm.run, Stm.seq, Stm.ite, Stm.ret, pure, Except.pure, h]
+
+
 end EtVerif.Tr
